@@ -83,6 +83,11 @@ def gen_mt(chk, i):
             ops.append("attr_str %s %s" % (key, val)); attrs[key] = val
         if rng.random() < 0.5:
             ops.append("rank %d %d" % (k, 64))
+        # mark types: several threads of the process define the same type numbers (with the same title and
+        # kind, as the API asks); each definition belongs in the metadata of the thread that made it
+        marks = sorted(t for t in (90, 91) if (i + k + t) % 3 != 0)
+        for t in marks:
+            ops.append("mark_type %d %d shared type %d" % (t, t % 2, t))
         n = rng.choice([50, 500, 3000]) if not first_wave else rng.choice([5, 50])
         heavy = (i % 4 == 2 and not churn)
         if heavy:
@@ -104,7 +109,7 @@ def gen_mt(chk, i):
                 ops.append(c01.op_event(rng, shc))
         ops += ["flush", "free"] + (["barrier"] * (2 * rounds - slots[k]) if churn else [])
         out += ["thread"] + ops + ["end"]
-        expect[tid] = {"cpus": cpus, "attrs": attrs, "reqs": reqs, "rank": None}
+        expect[tid] = {"cpus": cpus, "attrs": attrs, "reqs": reqs, "rank": None, "marks": marks}
     out.append("fini")
     return {"script": "\n".join(out) + "\n", "nth": nth, "expect": expect,
             "tmpdir": rng.random() < 0.4, "delay": rng.randint(1, 10 ** 6), "churn": rounds}
@@ -184,6 +189,10 @@ def run_mt(i):
             if got_attrs != exp["attrs"]:
                 res["viol"].append(("metadata-foreign-attrs", "thread %d metadata attributes %s, it set %s"
                                     % (tid, got_attrs, exp["attrs"]), {}))
+            got_marks = sorted(int(x) for x in o.get("mark", {}) if str(x).isdigit())
+            if got_marks != exp["marks"]:
+                res["viol"].append(("metadata-foreign-marks", "thread %d metadata defines mark types %s, it defined %s"
+                                    % (tid, got_marks, exp["marks"]), {}))
             req = set(o.get("require", {}))
             if req != set(exp["reqs"]):
                 res["viol"].append(("metadata-foreign-require", "thread %d requires %s, it asked for %s"
